@@ -1,5 +1,6 @@
 import CnvVerif.Driver.Call
 import CnvVerif.Model.CallExt5
+import CnvVerif.Model.CallExt5Wrap
 open Lean
 namespace CnvVerif.Drv
 
@@ -77,6 +78,39 @@ def handleCallWhole (op : String) (inp : Json) (impl : Option Json) : R (Option 
         let r := r.setObjVal! "post" (arrJ (o.post.map strJ))
         let r := r.setObjVal! "steps" (arrJ (o.steps.map (fun s => strJ (c01wStepName s))))
         pure (some ((r.setObjVal! "refused" (boolJ false)).setObjVal! "impl_refused" (boolJ false)))
+  | _ => pure none
+
+/-- op `call_wrappers`: the public wrappers `absolute_reference`, `absolute_expect`, `log2_ratios` called directly.
+    Input = rows, ploidy, hapX, female, par, `abs` (the absolutes handed to log2_ratios, exact doubles).
+    Impl = `{"reference": [..], "expect": [..], "ratios": [2^log2 ..]}`. -/
+def handleCallWrappers (op : String) (inp : Json) (impl : Option Json) : R (Option Json) := do
+  match op with
+  | "call_wrappers" =>
+    let rows ← getList getSegRow (← fld inp "rows")
+    let ploidy ← getNat (← fld inp "ploidy")
+    let hapX ← getBool (← fld inp "hapX")
+    let female ← getBool (← fld inp "female")
+    let par ← getOptStr (← fld inp "par")
+    let abs ← getList getRat (← fld inp "abs")
+    if ploidy == 0 then throw "ploidy 0 is outside the model"
+    let refs := c01wAbsoluteReference ploidy par hapX rows
+    let exps := c01wAbsoluteExpect ploidy par female rows
+    let ratios := c01wLog2Ratios ploidy hapX par rows abs
+    let spec ← (match impl with
+      | none => pure Json.null
+      | some ij => do
+        let ir ← getList getInt (← fld ij "reference")
+        let ie ← getList getInt (← fld ij "expect")
+        let iq ← getList getRat (← fld ij "ratios")
+        let c1 := if ir == refs.map (fun (n : Nat) => (Int.ofNat n)) then [] else ["wrapper_reference_column"]
+        let c2 := if ie == exps.map (fun (n : Nat) => (Int.ofNat n)) then [] else ["wrapper_expect_column"]
+        let c3 := if iq.length == ratios.length && (iq.zip ratios).all (fun (a, b) => closeRat a b) then []
+                  else ["wrapper_log2_ratios"]
+        pure (arrJ ((c1 ++ c2 ++ c3).map strJ)))
+    pure (some (obj [("out", obj [("reference", arrJ (refs.map (fun (n : Nat) => intJ (Int.ofNat n)))),
+                                  ("expect", arrJ (exps.map (fun (n : Nat) => intJ (Int.ofNat n)))),
+                                  ("ratios", arrJ (ratios.map ratJ))]),
+                     ("slack", arrJ []), ("spec", spec)]))
   | _ => pure none
 
 end CnvVerif.Drv
